@@ -16,6 +16,7 @@ import (
 
 type c05Scenario struct {
 	AfterReconnect  bool       `json:"after_reconnect,omitempty"`                    // the session under test was re-established by Resume after an earlier loss
+	GracefulEnd     bool       `json:"server_ends_the_stream_after_the_sequence,omitempty"` // </stream:stream> follows the last element at once; the server keeps reading
 	LossWhilePaused bool       `json:"connection_lost_while_answers_wait,omitempty"` // with backpressure_window: the connection is lost while answers to <r/> still wait for their turn; the application then resumes
 	BackPressure    int        `json:"backpressure_window,omitempty"`                // >0: both receive windows are this small and the server stops reading while it sends
 	Held            int        `json:"held_stanzas_before,omitempty"`
@@ -42,7 +43,7 @@ func init() {
 		Real:  []string{"xmpp.Client / xmpp.Component receive loops", "xmpp.Router and per-packet route goroutines", "xmpp.XMPPTransport", "stanza.NextPacket and codec"},
 		Stub:  []string{"TCP (simnet)", "XMPP server (scripted model)", "clock (synctest)", "goroutine scheduling (token scheduler)", "sync.RWMutex (equivalent shim)"},
 		Run:   runC05,
-		Reach: []string{"c05.loss_while_answers_wait", "c05.websocket", "c05.websocket_fragmented_message", "c05.backpressure", "c05.r_answered", "c05.after_reconnect"},
+		Reach: []string{"c05.loss_while_answers_wait", "c05.websocket", "c05.websocket_fragmented_message", "c05.backpressure", "c05.r_answered", "c05.after_reconnect", "c05.server_ends_the_stream_after_the_sequence"},
 	})
 }
 
@@ -129,6 +130,11 @@ func runC05(e *Engine, g G, o RunOpt) RunInfo {
 	if sc.Cut {
 		sc.CutAt = int64(g.Range("cutat", 0, int(total)))
 		sc.CutKind = []string{"fin", "rst", "rst-discard"}[g.N("cutkind", 3)]
+	}
+	if !sc.Cut && !sc.WebSocket && !sc.Component && sc.BackPressure == 0 && g.Pct("graceful-end", 15) {
+		// a server that shuts down asks for a last acknowledgement and ends its stream: what it sent
+		// before is received like anything else, and its requests are answered
+		sc.GracefulEnd = true
 	}
 
 	var handled *[]Handled
@@ -297,6 +303,10 @@ func runC05(e *Engine, g G, o RunOpt) RunInfo {
 			ack := fmt.Sprintf("<a xmlns='%s' h='0'/>", nsSM)
 			conn.Send(ack)
 			base += int64(len(ack))
+		}
+		if sc.GracefulEnd {
+			all.WriteString("</stream:stream>")
+			e.Probe("c05.server_ends_the_stream_after_the_sequence")
 		}
 		conn.SendChunks(all.String(), sc.Chunk)
 		if sc.LossWhilePaused && cw != nil && !sc.Cut {
